@@ -2,7 +2,7 @@
    physical form. *)
 From Coq Require Import List NArith Bool.
 From PyD Require Import Base.Str Model.Tsdb Model.TsdbFiles Model.TsdbDb Model.Hier
-  Proofs.TsdbFilesP Proofs.TsdbDbP.
+  Proofs.TsdbFilesP Proofs.TsdbDbP Model.TsdbRead Proofs.TsdbReadP.
 Import ListNotations.
 
 (* any sequence of writes (overwrite/append, plain/gzip, accepted or rejected)
@@ -70,3 +70,24 @@ Theorem C09_cleanup : forall names fs n,
   get_rel (cleanup fs names) n = if mem n names then absent else get_rel fs n.
 Proof. exact cleanup_spec. Qed.
 Print Assumptions C09_cleanup.
+
+(* the read interfaces of Database: reading back the lines written from records gives the
+   records (the empty string and None coincide) ... *)
+Theorem C09_read_written : forall recs : list (list raw), Forall (fun r => r <> []) recs ->
+  read_raw (map join_raw recs) = Some (map (map none_if_empty) recs).
+Proof. exact read_written. Qed.
+Print Assumptions C09_read_written.
+
+(* ... the automatically cast read is the cast of the raw read, record by record ... *)
+Theorem C09_read_cast : forall fields lines recs, read_raw lines = Some recs ->
+  read_cast fields lines = sequence (map (cast_record fields) recs).
+Proof. exact read_cast_spec. Qed.
+Print Assumptions C09_read_cast.
+
+(* ... and a column selection projects the records read *)
+Theorem C09_select_written : forall fields cols recs idx, Forall (fun r : list raw => r <> []) recs ->
+  indices_of fields cols = Some idx ->
+  select_raw fields cols (map join_raw recs)
+  = sequence (map (fun rec => sequence (map (fun i => nth_error (map none_if_empty rec) i) idx)) recs).
+Proof. exact select_written. Qed.
+Print Assumptions C09_select_written.
